@@ -448,6 +448,7 @@ class Check:
             "input_distribution": self.hist,
             "known_findings_hit": [k for k, _ in self.known_hits],
             "explanation": explanation,
+            "alpha_renaming": (ALPHA_REPORT or {}).get("renamed", {}),
         })
         ev = {"property_id": self.pid, "tier": self.tier, "seed": self.seed, "level": self.level,
               "coverage": cov, "assumptions": self.assumptions,
@@ -623,10 +624,16 @@ def repo_python_env():
     return env
 
 
+ALPHA_REPORT = {}
+
+
 def setup_repo_import():
     """Make `import qmi` resolve to the working tree under test."""
     if REPO not in sys.path:
         sys.path.insert(0, REPO)
     sys.dont_write_bytecode = True
+    import alpha
+    global ALPHA_REPORT
+    ALPHA_REPORT = alpha.install(REPO)
     import qmi  # noqa
     assert os.path.abspath(qmi.__file__).startswith(os.path.abspath(REPO)), qmi.__file__
